@@ -16,11 +16,22 @@ MANIFEST = {
             "(closure of declared and component equalities) carries three pieces of evidence in merge's known non-associativity class "
             "(K1/K2, proved tight in C16) it is the known finding, anything else is a violation. Theorems available: merge is "
             "commutative for all expressions; all six fold orders of three pieces of domain evidence agree outside the known class. "
-            "The general permutation theorem for folds of arbitrary length and its lifting through the pipeline are not proved (partial).",
+            "At the unification stage order independence is PROVED on a decidable fragment of judgement sets (props/C02_unify.v, model "
+            "coq/Unify.v, fragment coq/UnifyOrder.v): C02_unify_order_independent_words (only equalities, words and Any) and "
+            "C02_unify_order_independent (`order_free`: no packed encodings and every class of the statically computed congruence "
+            "closure is homogeneous -- words with words, mappings with mappings, fixed arrays of one length, dynamic arrays with "
+            "dynamic arrays) state that for ANY two permutations of every iterated hash collection both runs return, the classes "
+            "are exactly the congruence closure under both, and every variable's type is the same up to class representatives and "
+            "conflict payload (also through type_of); C02_unify_order_dependent_refuted exhibits, just outside the fragment, one "
+            "judgement set per known class (K1, Packed x Word, C16's K2, dynamic bytes) on which Sorted and SortedReversed differ. "
+            "The C14 check evaluates the fragment predicate on every generated judgement set and compares the implementation under "
+            "both orders inside it. Not proved: the lifting through the rest of the pipeline, and order independence up to renaming "
+            "of fresh variables for packed encodings outside the known classes (partial).",
     "note": "Trusted: Coq kernel; hooks H1/H2 (guarded, add-only); harness. Natural-order nondeterminism is sampled, forced orders are "
             "deterministic and replayable.",
     "technique": "forced-iteration-order differential search on the real code (hook H1) + Coq classification of order dependences by "
-                 "the proved-tight known class; Coq theorems on merge (commutativity, 3-fold order independence outside the class)",
+                 "the proved-tight known class; Coq theorems on merge (commutativity, 3-fold order independence outside the class) "
+                 "and on unification (order independence on the order-free fragment: unify computes the congruence closure)",
 }
 
 ORDERS = ["natural", "natural", "reversed", "sorted", "sortedrev", "seed:1", "seed:2", "seed:3"]
@@ -36,6 +47,7 @@ def norm(l):
 def check(ctx):
     vlib.translate(ctx)
     vlib.prove(ctx, "props/C02.v", ["OrderCases.vo", "OrderUnifyCases.vo"])
+    vlib.prove(ctx, "props/C02_unify.v")   # the unification stage: order independence on the order-free fragment
     hb = vlib.harness_bin(ctx)
     rng = ctx.rng
     bw = gen.boundary_words()
